@@ -91,11 +91,13 @@ theorem tablesFacts_of (tab : List Entry) (idxTab : List (String × List Idx)) (
 
 /-! ## the round trip through the repo's own reader -/
 
-/-- **Round trip through `read_itp` (recording reader), any tables that pass `tablesOk`.** -/
-theorem repo_reader_roundtrip_gen (tab : List Entry) (idxTab : List (String × List Idx))
+/-- Round trip through `read_itp` (recording reader), any tables that pass `tablesOk`, the left-over
+sections written in ANY order (`names`: any list of left-over names, e.g. a permutation). -/
+theorem repo_reader_roundtrip_ord (tab : List Entry) (idxTab : List (String × List Idx))
     (tbl : List (String × Arity)) (hT : tablesOk tab idxTab tbl = true) (m : Mol)
-    (h : wellFormed tbl m = true) (hc : charOk m = true) (hr : repoOk (tab.map (·.path)) m = true) :
-    ∃ ls blk, write m = .ok ls
+    (h : wellFormed tbl m = true) (hc : charOk m = true) (hr : repoOk (tab.map (·.path)) m = true)
+    (names : List String) (hsub : ∀ n ∈ names, n ∈ remainingNames m) :
+    ∃ ls blk, writeOrd m names = .ok ls
       ∧ readITPx idxTab tab (textLines (render ls)) = some [(some m.moltype, (0, blk))]
       ∧ viewBlock blk = some (canon m)
       ∧ blk.base.nodes.map (·.1) = (List.range m.atoms.length).map (fun (k : Nat) => toString k) := by
@@ -103,12 +105,12 @@ theorem repo_reader_roundtrip_gen (tab : List Entry) (idxTab : List (String × L
   have hw := C02.wfFacts_of tbl m h
   have hcf := C02.charFacts_of m hc
   have hrf := repoFacts_of _ m hr
-  have hgood := C02.fileLines_good tbl m hw hcf
-  have hrepo := fileLines_repo F m hw hcf hrf hnames hnomac hmol hat
-  obtain ⟨cf, hwalk, hview⟩ := walk_file F m hw hcf hrf hnames hmol hat
-  refine ⟨C02.fileLines m, cf, C02.write_ok tbl m hw, ?_, ?_, ?_⟩
+  have hgood := C02.fileLinesOrd_good tbl m hw hcf names hsub
+  have hrepo := fileLinesOrd_repo F m hw hcf hrf hnames hnomac hmol hat names hsub
+  obtain ⟨cf, hwalk, hview⟩ := walk_fileOrd F m hw hcf hrf hnames hmol hat names hsub
+  refine ⟨C02.fileLinesOrd m names, cf, C02.writeOrd_ok tbl m hw names, ?_, ?_, ?_⟩
   · rw [textLines_render _ (fun l hl => C02.noNl_of_good l (hgood l hl))]
-    rw [readITPx_fused idxTab tab _ ((C02.fileLines m).flatMap cls)
+    rw [readITPx_fused idxTab tab _ ((C02.fileLinesOrd m names).flatMap cls)
       (classify_lines _ (fun l hl => (line_cls_ok l (hgood l hl) (hrepo l hl)).1))
       (by
         intro x hx
@@ -126,6 +128,16 @@ theorem repo_reader_roundtrip_gen (tab : List Entry) (idxTab : List (String × L
   · obtain ⟨_, _, _, _, f5⟩ := addAtoms_fields (C02.widthsOf m) (C02.sortedNodes m) 0 (ctxMol m)
     rw [hview.nodes, f5, C02.sortedNodes_length]
     simp [ctxMol, List.range_eq_range']
+
+/-- **Round trip through `read_itp` (recording reader), any tables that pass `tablesOk`.** -/
+theorem repo_reader_roundtrip_gen (tab : List Entry) (idxTab : List (String × List Idx))
+    (tbl : List (String × Arity)) (hT : tablesOk tab idxTab tbl = true) (m : Mol)
+    (h : wellFormed tbl m = true) (hc : charOk m = true) (hr : repoOk (tab.map (·.path)) m = true) :
+    ∃ ls blk, write m = .ok ls
+      ∧ readITPx idxTab tab (textLines (render ls)) = some [(some m.moltype, (0, blk))]
+      ∧ viewBlock blk = some (canon m)
+      ∧ blk.base.nodes.map (·.1) = (List.range m.atoms.length).map (fun (k : Nat) => toString k) :=
+  repo_reader_roundtrip_ord tab idxTab tbl hT m h hc hr (remainingNames m) (fun _ h => h)
 
 /-- **`repo_reader_roundtrip`** — for every molecule in the domain of the C02 round trip
 (`wellFormed`, `charOk`) that the repo's reader can express (`repoOk`: int/float literals, no `$`/braces
